@@ -61,6 +61,7 @@ var commonAssumptions = []string{
 func allProps() []*Prop {
 	return []*Prop{
 		propC02(),
+		propC04(),
 		propC05(),
 		propC06(),
 		propC07(),
@@ -270,5 +271,43 @@ func propC06() *Prop {
 			"thorough": "jumpHash n<=8 (32-bit), n<=3 (64-bit); strings up to 5 bytes",
 		},
 		Outside: []string{"attribution strings longer than the bound", "bracketed RemoteAddr forms", "hash distribution quality"},
+	}
+}
+
+func propC04() *Prop {
+	return &Prop{
+		ID: "C04", Title: "Health state machine: ejection threshold, unhealthy window, recovery",
+		Jobs: func(tier string) []*sym.Job {
+			var js []*sym.Job
+			k := tierPick(tier, 4, 5)
+			for _, s := range []int64{0, 2} {
+				js = append(js, job(fmt.Sprintf("C04a/histories[%s,k=%d]", strategyNames[s], k), "loadbalancer", "VerifC04History", s, k))
+			}
+			if tier == "thorough" {
+				for _, s := range []int64{1, 3, 4} {
+					js = append(js, job(fmt.Sprintf("C04a/histories[%s,k=4]", strategyNames[s]), "loadbalancer", "VerifC04History", s, 4))
+				}
+			}
+			for s := int64(0); s < 5; s++ {
+				js = append(js, job(fmt.Sprintf("C04b/recovery[%s,N=1]", strategyNames[s]), "loadbalancer", "VerifC04Recovery", s, 1))
+				if s <= 2 {
+					j := job(fmt.Sprintf("C04b/recovery[%s,N=2]", strategyNames[s]), "loadbalancer", "VerifC04Recovery", s, 2)
+					if s == 0 {
+						rrJob(j)
+					}
+					js = append(js, j)
+				}
+			}
+			for _, j := range js {
+				j.MaxPaths = 400000
+			}
+			return js
+		},
+		Assumptions: append([]string{"one backend; unhealthy_threshold 1..3; any unhealthy window 1ns..2^40ns; events: failed response (any 5xx, through the real recordRequestMetrics), good response, probe start (real eligibility prologue), in-flight probe completes OK / fails (real processHealthCheckResponse / handleHealthCheckFailure), time passes (any amount), client request (real findHealthyBackend), admin+metrics read (real ListBackends / GetMetrics)", "a probe can complete only if it was started while the backend was eligible (as checkBackendHealth does)"}, commonAssumptions...),
+		Bounds: map[string]string{
+			"quick":    "every history of <= 4 events (round_robin and weighted_round_robin as representatives of the non-filtering / flag-filtering strategies); recovery after the window for all five strategies (N=1) and RR/LC/WRR (N=2)",
+			"thorough": "histories of <= 5 events for RR/WRR, <= 4 for the other three strategies",
+		},
+		Outside: []string{"schedules of an expiry check racing a fresh ejection (thread mode, see C12)", "more than one backend in the history harness"},
 	}
 }
